@@ -46,6 +46,7 @@ type Prog struct {
 	repo      string
 	module    string
 	loadErrs  []string
+	globals   map[*types.Var]*globalInfo
 }
 
 func (p *Prog) pos(pos token.Pos) string {
